@@ -11,6 +11,7 @@ import AgModel.Props.C08
 import AgModel.Props.C08Pool
 import AgModel.Props.C09
 import AgModel.Props.C10
+import AgModel.Props.C10Cluster
 import AgModel.Props.C11
 import AgModel.Props.C12
 import AgModel.Props.C13
